@@ -91,3 +91,266 @@ package simple
 //@ func DirectedGraph.NodeWithID props: C12
 //@ requires dgInv(g)
 //@ ensures new == !has(g.nodes, id)
+
+// wdgInv is the representation invariant of WeightedDirectedGraph (the same
+// shape as dgInv: the weighted graph differs only in the edge value type and
+// the self/absent weights, which no mutator changes).
+
+//@ spec wdgInv(g *WeightedDirectedGraph) bool = g != nil && g.nodes != nil && g.from != nil && g.to != nil && g.from != g.to && uid.setInv(g.nodeIDs) &&
+//@   forall(u, has(g.from, u) ==> g.from[u] != nil) && forall(u, has(g.to, u) ==> g.to[u] != nil) &&
+//@   forall(u, forall(v, has(g.from, u) && has(g.from, v) && u != v ==> g.from[u] != g.from[v])) &&
+//@   forall(u, forall(v, has(g.to, u) && has(g.to, v) && u != v ==> g.to[u] != g.to[v])) &&
+//@   forall(u, forall(v, has(g.from, u) && has(g.to, v) ==> g.from[u] != g.to[v])) &&
+//@   forall(u, forall(v, (has(g.from, u) && has(g.from[u], v)) == (has(g.to, v) && has(g.to[v], u)))) &&
+//@   forall(u, forall(v, has(g.from, u) && has(g.from[u], v) ==> has(g.nodes, u) && has(g.nodes, v) && u != v)) &&
+//@   forall(u, forall(v, has(g.from, u) && has(g.from[u], v) ==> g.from[u][v] != nil)) &&
+//@   forall(u, has(g.nodes, u) == has(g.nodeIDs.used, u))
+
+//@ spec wsame(a float64, b float64) bool = (isNaN(a) && isNaN(b)) || a == b
+//@ spec wfe(g *WeightedDirectedGraph, u int, v int) bool = has(g.from, u) && has(g.from[u], v)
+//@ spec wte(g *WeightedDirectedGraph, u int, v int) bool = has(g.to, u) && has(g.to[u], v)
+
+//@ func NewWeightedDirectedGraph props: C12
+//@ ensures wdgInv(result)
+//@ ensures forall(u, !has(result.nodes, u))
+//@ ensures forall(u, !has(result.from, u))
+
+//@ func WeightedDirectedGraph.AddNode props: C12
+//@ requires wdgInv(g) && n != nil
+//@ modifies g.nodes, g.nodeIDs.used, g.nodeIDs.free, g.nodeIDs.maxID
+//@ valid !has(g.nodes, n.ID())
+//@ panics iff !valid, before-writes
+//@ ensures wdgInv(g)
+//@ ensures forall(u, has(g.nodes, u) == (old(has(g.nodes, u)) || u == n.ID()))
+
+//@ func WeightedDirectedGraph.RemoveEdge props: C12
+//@ requires wdgInv(g)
+//@ modifies g.from[fid], g.to[tid]
+//@ ensures wdgInv(g)
+//@ ensures forall(u, forall(v, (has(g.from, u) && has(g.from[u], v)) == (old(has(g.from, u) && has(g.from[u], v)) && !(u == fid && v == tid))))
+
+//@ func WeightedDirectedGraph.HasEdgeFromTo props: C12
+//@ requires wdgInv(g)
+//@ ensures result == (has(g.from, uid) && has(g.from[uid], vid))
+
+//@ func WeightedDirectedGraph.HasEdgeBetween props: C12
+//@ requires wdgInv(g)
+//@ ensures result == ((has(g.from, xid) && has(g.from[xid], yid)) || (has(g.from, yid) && has(g.from[yid], xid)))
+
+//@ func WeightedDirectedGraph.SetWeightedEdge props: C12
+//@ requires wdgInv(g) && e != nil && e.From() != nil && e.To() != nil
+//@ modifies g.nodes, g.nodeIDs.used, g.nodeIDs.free, g.nodeIDs.maxID, g.from, g.to, g.from[e.From().ID()], g.to[e.To().ID()]
+//@ valid e.From().ID() != e.To().ID()
+//@ panics iff !valid, before-writes
+//@ ensures wdgInv(g)
+//@ ensures forall(u, has(g.nodes, u) == (old(has(g.nodes, u)) || u == e.From().ID() || u == e.To().ID()))
+//@ ensures forall(u, forall(v, (has(g.from, u) && has(g.from[u], v)) == (old(has(g.from, u) && has(g.from[u], v)) || (u == e.From().ID() && v == e.To().ID()))))
+
+//@ func WeightedDirectedGraph.RemoveNode props: C12
+//@ requires wdgInv(g)
+//@ modifies g.nodes, g.nodeIDs.used, g.nodeIDs.free, g.from, g.to, all(g.from[id])
+//@ ensures wdgInv(g)
+//@ ensures forall(u, has(g.nodes, u) == (old(has(g.nodes, u)) && u != id))
+//@ ensures forall(u, forall(v, (has(g.from, u) && has(g.from[u], v)) == (old(has(g.from, u) && has(g.from[u], v)) && u != id && v != id)))
+//@ loop 1: invariant forall(u, forall(v, wfe(g, u, v) == atloop(wfe(g, u, v))))
+//@ invariant forall(u, forall(v, wte(g, u, v) == (atloop(wte(g, u, v)) && !(v == id && seen(u)))))
+//@ invariant forall(u, forall(v, wfe(g, u, v) ==> g.from[u][v] != nil))
+//@ loop 2: invariant forall(u, forall(v, wte(g, u, v) == atloop(wte(g, u, v))))
+//@ invariant forall(u, forall(v, wfe(g, u, v) == (atloop(wfe(g, u, v)) && !(v == id && seen(u)))))
+//@ invariant forall(u, forall(v, wfe(g, u, v) ==> g.from[u][v] != nil))
+
+//@ func WeightedDirectedGraph.Node props: C12
+//@ requires wdgInv(g)
+//@ ensures (result != nil) ==> has(g.nodes, id)
+
+//@ func WeightedDirectedGraph.WeightedEdge props: C12
+//@ requires wdgInv(g)
+//@ ensures (result != nil) == (has(g.from, uid) && has(g.from[uid], vid))
+//@ ensures (result != nil) ==> result == g.from[uid][vid]
+
+//@ func WeightedDirectedGraph.Edge props: C12
+//@ requires wdgInv(g)
+//@ ensures (result != nil) == (has(g.from, uid) && has(g.from[uid], vid))
+
+//@ func WeightedDirectedGraph.Weight props: C12
+//@ requires wdgInv(g)
+//@ ensures ok == (xid == yid || (has(g.from, xid) && has(g.from[xid], yid)))
+//@ floats: ieee
+//@ ensures xid == yid ==> wsame(w, g.self)
+//@ ensures !ok ==> wsame(w, g.absent)
+//@ ensures (xid != yid && ok) ==> wsame(w, g.from[xid][yid].Weight())
+
+//@ func WeightedDirectedGraph.NewNode props: C12
+//@ requires wdgInv(g)
+//@ requires g.nodeIDs.maxID != uid.Max || exists(x, 0, uid.Max, !has(g.nodeIDs.used, x))
+//@ option may-panic
+//@ ensures result != nil && !has(g.nodes, result.ID())
+
+//@ func WeightedDirectedGraph.NodeWithID props: C12
+//@ requires wdgInv(g)
+//@ ensures new == !has(g.nodes, id)
+
+// ugInv is the representation invariant of UndirectedGraph: the top-level
+// maps exist, stored adjacency maps are non-nil and not shared, adjacency is
+// symmetric, every edge endpoint is a node, no self edges, stored edges are
+// non-nil with a non-nil From node (EdgeBetween dereferences both), and the ID
+// pool's used set is exactly the node set.
+
+//@ spec ugInv(g *UndirectedGraph) bool = g != nil && g.nodes != nil && g.edges != nil && uid.setInv(g.nodeIDs) &&
+//@   forall(u, has(g.edges, u) ==> g.edges[u] != nil) &&
+//@   forall(u, forall(v, has(g.edges, u) && has(g.edges, v) && u != v ==> g.edges[u] != g.edges[v])) &&
+//@   forall(u, forall(v, (has(g.edges, u) && has(g.edges[u], v)) == (has(g.edges, v) && has(g.edges[v], u)))) &&
+//@   forall(u, forall(v, has(g.edges, u) && has(g.edges[u], v) ==> has(g.nodes, u) && has(g.nodes, v) && u != v)) &&
+//@   forall(u, forall(v, has(g.edges, u) && has(g.edges[u], v) ==> g.edges[u][v] != nil && g.edges[u][v].From() != nil)) &&
+//@   forall(u, has(g.nodes, u) == has(g.nodeIDs.used, u))
+
+//@ spec ue(g *UndirectedGraph, u int, v int) bool = has(g.edges, u) && has(g.edges[u], v)
+
+//@ func NewUndirectedGraph props: C12
+//@ ensures ugInv(result)
+//@ ensures forall(u, !has(result.nodes, u))
+//@ ensures forall(u, !has(result.edges, u))
+
+//@ func UndirectedGraph.AddNode props: C12
+//@ requires ugInv(g) && n != nil
+//@ modifies g.nodes, g.nodeIDs.used, g.nodeIDs.free, g.nodeIDs.maxID
+//@ valid !has(g.nodes, n.ID())
+//@ panics iff !valid, before-writes
+//@ ensures ugInv(g)
+//@ ensures forall(u, has(g.nodes, u) == (old(has(g.nodes, u)) || u == n.ID()))
+
+//@ func UndirectedGraph.RemoveEdge props: C12
+//@ requires ugInv(g)
+//@ modifies g.edges[fid], g.edges[tid]
+//@ ensures ugInv(g)
+//@ ensures forall(u, forall(v, (has(g.edges, u) && has(g.edges[u], v)) == (old(has(g.edges, u) && has(g.edges[u], v)) && !(u == fid && v == tid) && !(u == tid && v == fid))))
+
+//@ func UndirectedGraph.HasEdgeBetween props: C12
+//@ requires ugInv(g)
+//@ ensures result == (has(g.edges, xid) && has(g.edges[xid], yid))
+//@ ensures result == (has(g.edges, yid) && has(g.edges[yid], xid))
+
+//@ func UndirectedGraph.SetEdge props: C12
+//@ requires ugInv(g) && e != nil && e.From() != nil && e.To() != nil
+//@ modifies g.nodes, g.nodeIDs.used, g.nodeIDs.free, g.nodeIDs.maxID, g.edges, g.edges[e.From().ID()], g.edges[e.To().ID()]
+//@ valid e.From().ID() != e.To().ID()
+//@ panics iff !valid, before-writes
+//@ ensures ugInv(g)
+//@ ensures forall(u, has(g.nodes, u) == (old(has(g.nodes, u)) || u == e.From().ID() || u == e.To().ID()))
+//@ ensures forall(u, forall(v, (has(g.edges, u) && has(g.edges[u], v)) == (old(has(g.edges, u) && has(g.edges[u], v)) || (u == e.From().ID() && v == e.To().ID()) || (u == e.To().ID() && v == e.From().ID()))))
+
+//@ func UndirectedGraph.RemoveNode props: C12
+//@ requires ugInv(g)
+//@ modifies g.nodes, g.nodeIDs.used, g.nodeIDs.free, g.edges, all(g.edges[id])
+//@ ensures ugInv(g)
+//@ ensures forall(u, has(g.nodes, u) == (old(has(g.nodes, u)) && u != id))
+//@ ensures forall(u, forall(v, (has(g.edges, u) && has(g.edges[u], v)) == (old(has(g.edges, u) && has(g.edges[u], v)) && u != id && v != id)))
+//@ loop 1: invariant forall(u, forall(v, ue(g, u, v) == (atloop(ue(g, u, v)) && !(v == id && seen(u)))))
+//@ invariant forall(u, forall(v, ue(g, u, v) ==> g.edges[u][v] != nil && g.edges[u][v].From() != nil))
+
+//@ func UndirectedGraph.Node props: C12
+//@ requires ugInv(g)
+//@ ensures (result != nil) ==> has(g.nodes, id)
+
+//@ func UndirectedGraph.EdgeBetween props: C12
+//@ requires ugInv(g)
+//@ ensures (result != nil) ==> (has(g.edges, xid) && has(g.edges[xid], yid))
+//@ ensures ue(g, xid, yid) && g.edges[xid][yid].From().ID() == xid ==> result == g.edges[xid][yid]
+//@ ensures ue(g, xid, yid) && g.edges[xid][yid].From().ID() != xid ==> result == g.edges[xid][yid].ReversedEdge()
+
+//@ func UndirectedGraph.Edge props: C12
+//@ requires ugInv(g)
+//@ ensures (result != nil) ==> (has(g.edges, uid) && has(g.edges[uid], vid))
+
+//@ func UndirectedGraph.NewNode props: C12
+//@ requires ugInv(g)
+//@ requires g.nodeIDs.maxID != uid.Max || exists(x, 0, uid.Max, !has(g.nodeIDs.used, x))
+//@ option may-panic
+//@ ensures result != nil && !has(g.nodes, result.ID())
+
+//@ func UndirectedGraph.NodeWithID props: C12
+//@ requires ugInv(g)
+//@ ensures new == !has(g.nodes, id)
+
+// wugInv is the representation invariant of WeightedUndirectedGraph (the same
+// shape as ugInv).
+
+//@ spec wugInv(g *WeightedUndirectedGraph) bool = g != nil && g.nodes != nil && g.edges != nil && uid.setInv(g.nodeIDs) &&
+//@   forall(u, has(g.edges, u) ==> g.edges[u] != nil) &&
+//@   forall(u, forall(v, has(g.edges, u) && has(g.edges, v) && u != v ==> g.edges[u] != g.edges[v])) &&
+//@   forall(u, forall(v, (has(g.edges, u) && has(g.edges[u], v)) == (has(g.edges, v) && has(g.edges[v], u)))) &&
+//@   forall(u, forall(v, has(g.edges, u) && has(g.edges[u], v) ==> has(g.nodes, u) && has(g.nodes, v) && u != v)) &&
+//@   forall(u, forall(v, has(g.edges, u) && has(g.edges[u], v) ==> g.edges[u][v] != nil && g.edges[u][v].From() != nil)) &&
+//@   forall(u, has(g.nodes, u) == has(g.nodeIDs.used, u))
+
+//@ spec wue(g *WeightedUndirectedGraph, u int, v int) bool = has(g.edges, u) && has(g.edges[u], v)
+
+//@ func NewWeightedUndirectedGraph props: C12
+//@ ensures wugInv(result)
+//@ ensures forall(u, !has(result.nodes, u))
+//@ ensures forall(u, !has(result.edges, u))
+
+//@ func WeightedUndirectedGraph.AddNode props: C12
+//@ requires wugInv(g) && n != nil
+//@ modifies g.nodes, g.nodeIDs.used, g.nodeIDs.free, g.nodeIDs.maxID
+//@ valid !has(g.nodes, n.ID())
+//@ panics iff !valid, before-writes
+//@ ensures wugInv(g)
+//@ ensures forall(u, has(g.nodes, u) == (old(has(g.nodes, u)) || u == n.ID()))
+
+//@ func WeightedUndirectedGraph.RemoveEdge props: C12
+//@ requires wugInv(g)
+//@ modifies g.edges[fid], g.edges[tid]
+//@ ensures wugInv(g)
+//@ ensures forall(u, forall(v, (has(g.edges, u) && has(g.edges[u], v)) == (old(has(g.edges, u) && has(g.edges[u], v)) && !(u == fid && v == tid) && !(u == tid && v == fid))))
+
+//@ func WeightedUndirectedGraph.HasEdgeBetween props: C12
+//@ requires wugInv(g)
+//@ ensures result == (has(g.edges, xid) && has(g.edges[xid], yid))
+//@ ensures result == (has(g.edges, yid) && has(g.edges[yid], xid))
+
+//@ func WeightedUndirectedGraph.SetWeightedEdge props: C12
+//@ requires wugInv(g) && e != nil && e.From() != nil && e.To() != nil
+//@ modifies g.nodes, g.nodeIDs.used, g.nodeIDs.free, g.nodeIDs.maxID, g.edges, g.edges[e.From().ID()], g.edges[e.To().ID()]
+//@ valid e.From().ID() != e.To().ID()
+//@ panics iff !valid, before-writes
+//@ ensures wugInv(g)
+//@ ensures forall(u, has(g.nodes, u) == (old(has(g.nodes, u)) || u == e.From().ID() || u == e.To().ID()))
+//@ ensures forall(u, forall(v, (has(g.edges, u) && has(g.edges[u], v)) == (old(has(g.edges, u) && has(g.edges[u], v)) || (u == e.From().ID() && v == e.To().ID()) || (u == e.To().ID() && v == e.From().ID()))))
+
+//@ func WeightedUndirectedGraph.RemoveNode props: C12
+//@ requires wugInv(g)
+//@ modifies g.nodes, g.nodeIDs.used, g.nodeIDs.free, g.edges, all(g.edges[id])
+//@ ensures wugInv(g)
+//@ ensures forall(u, has(g.nodes, u) == (old(has(g.nodes, u)) && u != id))
+//@ ensures forall(u, forall(v, (has(g.edges, u) && has(g.edges[u], v)) == (old(has(g.edges, u) && has(g.edges[u], v)) && u != id && v != id)))
+//@ loop 1: invariant forall(u, forall(v, wue(g, u, v) == (atloop(wue(g, u, v)) && !(v == id && seen(u)))))
+//@ invariant forall(u, forall(v, wue(g, u, v) ==> g.edges[u][v] != nil && g.edges[u][v].From() != nil))
+
+//@ func WeightedUndirectedGraph.Node props: C12
+//@ requires wugInv(g)
+//@ ensures (result != nil) ==> has(g.nodes, id)
+
+// WeightedEdgeBetween (and WeightedEdge, Edge, EdgeBetween, which only call
+// it) is not under contract: its unchecked type assertion
+// edge.ReversedEdge().(graph.WeightedEdge) panics when a stored user edge
+// reverses to a value that is not a graph.WeightedEdge, and the contract
+// language cannot state the dynamic-type assumption that would rule this out.
+
+//@ func WeightedUndirectedGraph.Weight props: C12
+//@ requires wugInv(g)
+//@ floats: ieee
+//@ ensures ok == (xid == yid || (has(g.edges, xid) && has(g.edges[xid], yid)))
+//@ ensures xid == yid ==> wsame(w, g.self)
+//@ ensures !ok ==> wsame(w, g.absent)
+//@ ensures (xid != yid && ok) ==> wsame(w, g.edges[xid][yid].Weight())
+
+//@ func WeightedUndirectedGraph.NewNode props: C12
+//@ requires wugInv(g)
+//@ requires g.nodeIDs.maxID != uid.Max || exists(x, 0, uid.Max, !has(g.nodeIDs.used, x))
+//@ option may-panic
+//@ ensures result != nil && !has(g.nodes, result.ID())
+
+//@ func WeightedUndirectedGraph.NodeWithID props: C12
+//@ requires wugInv(g)
+//@ ensures new == !has(g.nodes, id)
